@@ -31,72 +31,80 @@
 (* (CondLock/Acquire, CondWait/Load) without comparing it with prio.        *)
 EXTENDS TaskMgr, Json, TLCExt
 
-VARIABLES l, early     \* early = DecrAdd steps already taken whose DecrEnd event is still to come
-tvars == <<vars, l, early>>
+VARIABLES l, early,    \* early = DecrAdd steps already taken whose DecrEnd event is still to come
+          since         \* since[i] = DecrAdd steps taken since invocation i logged Acquired (before it takes notifyMu)
+tvars == <<vars, l, early, since>>
+\* The counter read logged by Decided is atomic with Do (notifyMu) but not with the lock-free decrement: the read
+\* happened somewhere between Acquired(i) and Decided(i), so it may miss up to since[i] decrements already logged.
 
 TraceLog == ndJsonDeserialize("trace.ndjson")
 Ev == TraceLog[l]
 IsEvent(e) == l <= Len(TraceLog) /\ Ev.ev = e /\ l' = l + 1
 IsInv(e) == IsEvent(e) /\ Ev.i \in Invs
 
+Keep == UNCHANGED <<early, since>>
+Bump == since' = [i \in Invs |-> since[i] + 1]
 Jump(i, from, to, name) ==
     /\ pc[i] = from /\ Goto(i, to)
     /\ UNCHANGED <<prio, epoch, sem, active, ndo, dg, seen, bodies>>
     /\ last' = [act |-> name, i |-> i]
 Stay(i, at) == pc[i] \in at /\ UNCHANGED vars
 
-TraceInit == Init /\ l = 1 /\ early = 0 /\ TLCSet(1, 0)
+TraceInit == Init /\ l = 1 /\ early = 0 /\ since = [i \in Invs |-> 0] /\ TLCSet(1, 0)
 
 TraceReset ==
     /\ IsEvent("Reset")
     /\ prio' = 0 /\ epoch' = 0 /\ sem' = 0 /\ active' = 0 /\ ndo' = 0
     /\ dg' = [sleep |-> 0, awake |-> 0, bcast |-> 0]
     /\ pc' = [i \in Invs |-> "wait"] /\ seen' = [i \in Invs |-> 0] /\ bodies' = [i \in Invs |-> <<>>]
-    /\ last' = [act |-> "Init"] /\ early' = 0
+    /\ last' = [act |-> "Init"] /\ early' = 0 /\ since' = [i \in Invs |-> 0]
 
 \* internal: the lock-free decrement, placed where the next logged read of the counter needs it
 NeedsDecr == l <= Len(TraceLog) /\ Ev.ev = "Decided" /\ Ev.tasks < prio
-TraceInternalDecr == NeedsDecr /\ DecrAdd /\ early' = early + 1 /\ l' = l
+TraceInternalDecr == NeedsDecr /\ DecrAdd /\ early' = early + 1 /\ Bump /\ l' = l
 \* internal: <-done after cancel() (repaired code); requires the body to be done (property-bearing guard)
 TraceInternalAwait ==
     /\ l <= Len(TraceLog) /\ Ev.ev = "Release" /\ Ev.i \in Invs
-    /\ AwaitBody(Ev.i) /\ l' = l /\ UNCHANGED early
+    /\ AwaitBody(Ev.i) /\ l' = l /\ Keep
 
 \* internal: the body saw its context done although the code has not cancelled it: the deadline passed
 TraceInternalTimeout ==
     /\ l <= Len(TraceLog) /\ Ev.ev = "BodyEnd" /\ Ev.i \in Invs /\ Ev.cx = 1
     /\ Ev.n = Len(bodies[Ev.i])
-    /\ Timeout(Ev.i) /\ l' = l /\ UNCHANGED early
+    /\ Timeout(Ev.i) /\ l' = l /\ Keep
 
-TraceDo == IsEvent("Do") /\ Do /\ UNCHANGED early
-TraceDone == IsEvent("Done") /\ Done /\ UNCHANGED early
-TraceExpire == IsEvent("Expire") /\ Expire /\ UNCHANGED early
+TraceDo == IsEvent("Do") /\ Do /\ Keep
+TraceDone == IsEvent("Done") /\ Done /\ Keep
+TraceExpire == IsEvent("Expire") /\ Expire /\ Keep
 TraceDecrEnd ==
     /\ IsEvent("DecrEnd")
-    /\ IF early > 0 THEN early' = early - 1 /\ UNCHANGED vars
-       ELSE DecrAdd /\ UNCHANGED early
-TraceBroadcast == IsEvent("Broadcast") /\ early = 0 /\ Broadcast /\ UNCHANGED early
-TraceBroadcastE == IsEvent("Broadcast") /\ early > 0 /\ Broadcast /\ UNCHANGED early
+    /\ IF early > 0 THEN early' = early - 1 /\ UNCHANGED <<vars, since>>
+       ELSE DecrAdd /\ UNCHANGED early /\ Bump
+TraceBroadcast == IsEvent("Broadcast") /\ early = 0 /\ Broadcast /\ Keep
+TraceBroadcastE == IsEvent("Broadcast") /\ early > 0 /\ Broadcast /\ Keep
 TraceLoad ==
-    /\ IsInv("Load") /\ UNCHANGED early
+    /\ IsInv("Load") /\ Keep
     /\ IF pc[Ev.i] = "condchk" THEN Jump(Ev.i, "condchk", "wait", "CondCheck") ELSE Stay(Ev.i, {"wait"})
-TraceCondLock == IsInv("CondLock") /\ Jump(Ev.i, "wait", "condchk", "LoadOuter") /\ UNCHANGED early
-TraceCondWait == IsInv("CondWait") /\ Jump(Ev.i, "condchk", "sleeping", "CondCheck") /\ UNCHANGED early
-TraceAcquire == IsInv("Acquire") /\ Jump(Ev.i, "wait", "acquire", "LoadOuter") /\ UNCHANGED early
-TraceAcquired == IsInv("Acquired") /\ AcquireSem(Ev.i) /\ UNCHANGED early
-TraceDecided == IsInv("Decided") /\ DecideT(Ev.i, Ev.tasks) /\ UNCHANGED early
-TraceSelect == IsInv("Select") /\ Stay(Ev.i, {"select"}) /\ UNCHANGED early
-TraceNotified == IsInv("Notified") /\ SelNotify(Ev.i) /\ UNCHANGED early
-TraceBodyDone == IsInv("BodyDone") /\ SelDone(Ev.i) /\ UNCHANGED early
-TraceRelease == IsInv("Release") /\ ReleaseSem(Ev.i) /\ UNCHANGED early
-TraceReturn == IsInv("Return") /\ Return(Ev.i) /\ UNCHANGED early
-TraceBodyBegin == IsInv("BodyBegin") /\ BodyBegin(Ev.i, Ev.n) /\ UNCHANGED early
+TraceCondLock == IsInv("CondLock") /\ Jump(Ev.i, "wait", "condchk", "LoadOuter") /\ Keep
+TraceCondWait == IsInv("CondWait") /\ Jump(Ev.i, "condchk", "sleeping", "CondCheck") /\ Keep
+TraceAcquire == IsInv("Acquire") /\ Jump(Ev.i, "wait", "acquire", "LoadOuter") /\ Keep
+TraceAcquired == IsInv("Acquired") /\ AcquireSem(Ev.i) /\ UNCHANGED early /\ since' = [since EXCEPT ![Ev.i] = 0]
+TraceDecided ==
+    /\ IsInv("Decided") /\ Keep
+    /\ Ev.tasks >= prio /\ Ev.tasks - prio <= since[Ev.i]
+    /\ DecideRead(Ev.i, Ev.tasks)
+TraceSelect == IsInv("Select") /\ Stay(Ev.i, {"select"}) /\ Keep
+TraceNotified == IsInv("Notified") /\ SelNotify(Ev.i) /\ Keep
+TraceBodyDone == IsInv("BodyDone") /\ SelDone(Ev.i) /\ Keep
+TraceRelease == IsInv("Release") /\ ReleaseSem(Ev.i) /\ Keep
+TraceReturn == IsInv("Return") /\ Return(Ev.i) /\ Keep
+TraceBodyBegin == IsInv("BodyBegin") /\ BodyBegin(Ev.i, Ev.n) /\ Keep
 TraceBodyEnd ==
-    /\ IsInv("BodyEnd") /\ BodyEnd(Ev.i, Ev.n) /\ UNCHANGED early
+    /\ IsInv("BodyEnd") /\ BodyEnd(Ev.i, Ev.n) /\ Keep
     /\ Ev.cx = 1 => bodies[Ev.i][Ev.n].cx      \* a body sees its context cancelled only after cancel()
 \* driver verdict events (bounded waits): decided by the monitor only
 \* CallBegin / CallEnd: marks of the caller driver (harness/fs)
-TraceOther == (IsEvent("Stuck") \/ IsEvent("CxTimeout") \/ IsEvent("CallBegin") \/ IsEvent("CallEnd")) /\ UNCHANGED <<vars, early>>
+TraceOther == (IsEvent("Stuck") \/ IsEvent("CxTimeout") \/ IsEvent("CallBegin") \/ IsEvent("CallEnd")) /\ UNCHANGED vars /\ Keep
 
 TraceNext ==
     \/ TraceReset \/ TraceInternalDecr \/ TraceInternalAwait \/ TraceInternalTimeout
